@@ -11,63 +11,7 @@ COMMON_NOTE = ("Trusted base: Lean 4.33 kernel (thorough tier: leanchecker re-ch
                "Modelled, not verified: CPython bytes/dict/Counter/heapq/generator semantics, struct, the re engine on Hyphe's rule family, "
                "OS files as byte arrays. ")
 
-P = {
- "C01": ('refinement: Shape (ghost search tree) is an invariant of every request; the page set is exactly the submitted LRUs',
-         "Theorems (Props/C01.lean): for every history from a fresh index (any rules, any configuration) the state represents a ghost ternary search tree (C01_shape_invariant); an LRU is a page iff some earlier request submitted it (as a page, link end or batch member), it is crawled iff some request submitted it as crawled (C01_pages, C01_crawled); the full enumeration lists exactly those, each once, with the current mark (C01_enumeration); a report counts exactly the pages that were not pages before (C01_report); re-submission changes nothing (C01_resubmit). Proved by induction over request lists with per-loop-iteration lemmas (Proofs/ShapeOps, PageSet). Requests that abort with the library's KeyError mid-way are described by their partial effect (hypothesis NoKeyErr names them)."),
- "C02": ('codec round-trip, stem read-back for every length, ghost search tree: locate / wind up / traverse agree in every reachable state',
-         "Theorems (Props/C02.lean): block codec round-trips; a stem of any length written as head+tail blocks reads back byte-identical in ceil(len/74) blocks; in every reachable state descent by stems finds exactly the tree's entry (C02_locate), no LRU is stored twice (C02_no_duplicates), the full traversal lists exactly the entries (C02_traversal, _covers_map), winding a block up returns the LRU under which descent finds it (C02_windup, C02_insert_then_windup); the invariant holds initially and after every insertion (C02_inv, C02_inv_init)."),
- "C03": ("stub-list lemmas (prepend, frame, Counter multiplicities); lift to histories in progress",
-         "Theorems (Props/C03.lean): a list write prepends exactly the submitted ends and changes no other list; reported weights are the "
-         "multiplicities of the walk, each target once, totals preserved. In/out symmetry over histories is tied by correspondence "
-         "(get_page_links × 8 switch sets, links_iter both ways, degrees) and the oracle's submission multiset."),
- "C04": ('refinement: resolution = longest stem-prefix entry carrying a webentity, in every reachable state',
-         "Theorems (Props/C04.lean): in every state representing a search tree (all reachable ones, C01_shape_invariant) retrieve_webentity / retrieve_prefix return the id and LRU of the longest stem-prefix of the query whose block carries a webentity, for indexed, partially indexed and absent queries, and fail with the library's own error iff there is none (C04_resolve, C04_errors, C04_indexed, C04_prefix_of_query); both are projections of one walk (C04_consistent); the point query answers the located block (C04_point_query). The 'net effect of the edits' half (which blocks carry which id after a history of edits) is tied by correspondence + oracle; its proof is in progress (DESIGN §12.2)."),
- "C05": ('traversal answer characterised exactly per prefix (membership iff not cut by a foreign webentity), in every reachable state',
-         'Theorems (Props/C05.lean): per prefix, the answer is exactly the pages below the prefix not separated from it by a block carrying another webentity, with current marks (C05_walk_exact, C05_pages_sound, C05_nested_excluded); crawled-only is exactly the filter; unknown prefix refused.'),
- "C06": ("decision ladder stated outright, generic in the rule table",
-         "Theorems (Props/C06.lean): K ≤ E creates and reports nothing and leaves the trie as add_page left it; get_potential_prefix runs the same "
-         "ladder read-only (covered / rule-wins cases). Rule application itself (re engine) is modelled and validated against re on every run."),
- "C07": ('carried webentity = resolution for every block met by the network traversal; Counter aggregation lemmas',
-         "Theorems (Props/C07.lean): the webentity the network traversal carries down to a page equals the resolution of that page (C07_carried_is_resolution, _unique, _sound); Counter aggregation adds exactly the link weight, one entry per target webentity. Fast/slow/transpose equalities and the sums over link lists are tied by correspondence on all switch sets and by the oracle's recomputation from the abstract index."),
- "C08": ("switch logic per source page stated outright + Counter multiplicities",
-         "Theorems (Props/C08.lean): per page, the returned links are exactly the targets passing the stated switch test with their multiplicity, "
-         "each once; cited/citing answers are sets; no switch is refused."),
- "C09": ('token codec, in-order traversal theorems: ascending, resume, no repeat / no skip for every chunk size and every tree',
-         'Theorems (Props/C09.lean): tokens round-trip for every (prefix index, path); L/C/R paths are injective; the paginated traversal emits pages in ascending path order (C09_ascending), a token denotes exactly the page it was issued for (C09_token_denotes), resuming from a token continues with the in-order successor, so chunks concatenate to the unpaginated answer with no repeat and no skip (C09_resume, C09_no_repeat_no_skip), also when pages were inserted between calls (the heap order keeps paths valid). Runtime limit F09 (RecursionError beyond ~1000 nested siblings) is a known finding the unbounded model cannot exhibit.'),
- "C10": ('token codec + bookkeeping totality + resume theorem shared with C09',
-         'Theorems (Props/C10.lean): tokens round-trip; a token is built from a pair recorded together (repaired D3) so resumption never lacks the prefix index (C10_tokenOf_total); resumption continues with the in-order successor page (C10_resume); no-switch refused. Equality of the concatenated link chunks with the unpaginated answer is tied by correspondence and oracle on full episodes.'),
- "C11": ("codec round-trip of whole images; reopen/clear by definition of the model + real reopen in the harness",
-         "Theorems (Props/C11.lean): decoding both images returns the block arrays (the files are the state), whole numbers of blocks, reopen writes "
-         "nothing, clear(d, rs) is literally a fresh index. The harness really closes and reopens the folder and compares with the never-closed run."),
- "C12": ("invariant on the header counter over all operations",
-         "Theorems (Props/C12.lean): every id reported by a request lies strictly above the counter before the request and at most at the counter "
-         "after it; the list of ids issued along any history without clear is strictly increasing, across reopen and deletions."),
- "C13": ('pruning-mark invariant for every request; children answer exact in every reachable state',
-         'Theorems (Props/C13.lean): in every reachable state a block that has a webentity strictly below it carries the can-have-child-webentities mark (C13_mark_invariant, an invariant of every request incl. deletions, which may leave marks set but never clear a needed one: C13_unmarks), hence the pruned DFS omits nothing: the children answer is exactly the set of ids of webentity blocks strictly below the given prefixes, minus 0 and the queried id (C13_children); parents are exactly the ids on the parent chain (C13_parents_sound); answers are sorted duplicate-free sets; unknown prefix refused.'),
- "C14": ("frame property by construction (queries are functions of the state) + implementation-only byte tie",
-         "Theorem (Props/C14.lean): a read request returns the state unchanged whatever it answers. The tie compares both real store images and the "
-         "storage write log before/after every read on both back-ends."),
- "C15": ("simulation between storage machines",
-         "Theorems (Props/C15.lean): FileStorage (bytes+cursor), MemoryStorage (slice assignment) and MemMapStorage simulate one block list under the "
-         "call discipline, for any sequence of storage calls; cursor reads are shown back-end dependent (the D2 hazard)."),
- "C16": ("coroutine state machines + frame theorems for the query machines; schedule safety by correspondence; F16 known finding",
-         "Model: the four generators as explicit state machines yielding exactly where the code does, with the stale node copies the code holds "
-         "across a yield. Theorems (Props/C16.lean): query sections never write; finished generators are inert. The tie advances the real "
-         "generators (should_yield wrapped to True) and the model under the same random schedules of 2-3 requests and compares every step's "
-         "status, the final answers and the final bytes; the oracle states C16 directly (no failure, final pages/links = sequential application, "
-         "symmetry, query bounds from atomic probes after every step). What the model cannot exhibit: CPython generator semantics are modelled, "
-         "validated by the tie, not verified. The soundness clause for queries is false of the code (F16, known finding)."),
- "C17": ("algebraic laws of the byte-level function on the grammar, via a proved stem-level bridge",
-         "Theorems (Props/C17.lean): head, nodup, local, closed (permutation) for every LRU of the property's grammar, incl. path stems containing "
-         "'s:http' / 'h:'; the byte-level replace/split code equals the stem-level specification."),
- "C18": ('per-write heap order: every prefix of the write log is below the completed state; open-time decision logic',
-         "Theorems (Props/C18.lean): every single storage write of every request is increasing in the heap order, so the files rebuilt from ANY prefix of the write log (block granularity) are below every later state (C18_subset, C18_cut_opens_below, C18_log_faithful) and report only pages/links the completed history reports (C18_reports_subset); exactly torn appends are refused with the library's own error, in-place rewrites cannot be torn, a cut on a write boundary opens to exactly the replayed prefix (C18_refuse, C18_rewrite_atomic, C18_boundary_opens, C18_opens_prefix). The tie rebuilds the real files for cuts of the real write log (block and byte granularity, forced multi-block stems), reopens them with the real code and runs all observers. Assumed, not exhibited: a crash leaves a prefix of the program-ordered writes (no OS reordering)."),
- "C19": ('accounting invariant: trie size = 1 + Σ blocksFor(stem) over entries, in every reachable state; exact growth; two stubs per link',
-         "Theorems (Props/C19.lean): ceil(len/n) chunks, lossless, for every length; SizeOk (trie blocks = header + Σ over the ghost tree's entries of blocksFor(last stem)) holds initially and is preserved by insertion (C19_trie, C19_trie_init), an insertion grows the file by exactly the blocks of the new stems (C19_growth) and by nothing if the LRU is known (C19_idempotent, _page); n link ends take n stubs and no trie block (C19_stubs, C19_links)."),
- "C20": ("bounded heap keeps the k largest keys (invariant over the fold)",
-         "Theorems (Props/C20.lean): length min(k,n), sub-multiset, order, no omitted entry above a kept one; indegree of a linked page = distinct "
-         "sources. D4 (lonely page reported with 1) is a known finding mirrored by a probed configuration bit."),
-}
+P = {k: (v["technique"], v["text"]) for k, v in json.load(open(os.path.join(HERE, "props_text.json"))).items()}
 NOT_YET = {
 }
 
